@@ -436,6 +436,9 @@ func (eval Evaluator) InnerFunction(ctIn *Ciphertext, batchSize, n int, f func(a
 		ringQ.INTT(opOut.Value[1], opOut.Value[1])
 	}
 
+	// The intermediate copies set the metadata of the NTT representation.
+	*opOut.MetaData = *ctIn.MetaData
+
 	return
 }
 
